@@ -17,7 +17,7 @@ def run(c, replay):
         tokens="GET / | GET /?limit=1&offset=1 | POST / | PUT / | Content-Length: 2 | content-length: 0 | Content-Length: 1048577 | "
                "Content-Length: x | x-api-key: <key> | X-API-KEY: <key> | x-api-key: <proper prefix> | x-api-key: <key+suffix> | "
                "x-api-key: <other case> | CRLF | up | up CRLF | bogus-action | LF | 0xFF",
-        sequence_len=c.pick(4, 5), split_sequence_len=c.pick(3, 4), wire_pipe_len=3, wire_tcp_len=c.pick(2, 3),
+        sequence_len=c.pick("4, plus every length-5 sequence that starts with GET / or POST /", 5), split_sequence_len=c.pick(3, 4), wire_pipe_len=3, wire_tcp_len=c.pick(2, 3),
         key_configured=["none", "Ky"], ends=["EOF", "read deadline fired", "connection reset"],
         bodies="40 action specs, all ordered pairs joined with + (quick: x first 24), CR/LF/space/NUL/0xFF decorations, "
                "sizes 4095..4097, 65535..65537, 1 MiB-1, 1 MiB, 1 MiB+1")
@@ -41,11 +41,11 @@ def run(c, replay):
                 rule="all token sequences up to the bound x {no key, key} x {EOF, read deadline, reset}; one write; "
                      "non-trivial = the request line is accepted; states = sequences")
     c.run_layer(b, LAYERS["splits"], "splits", deadline_s=c.pick(60, 400),
-                rule="all token sequences up to the bound x every 2-write split point x {no key, key} x {EOF, read deadline}; "
+                rule="all token sequences up to the bound x {every 2-write split point x {EOF, read deadline}, every truncation x {EOF, read deadline, reset}} x {no key, key}; "
                      "every pair of split points (3 writes) on 5 complete requests; transitions = split deliveries")
     c.run_layer(b, LAYERS["bodies"], "bodies", deadline_s=c.pick(60, 300),
                 rule="POST of every body of the corpus with exact Content-Length x {no key, key} x {no header, exact, prefix} x "
-                     "{one write, headers and body separately}; delivered []*action compared with parseKeymap(\"f1:<body>\")")
+                     "{one write, headers and body separately, body cut at every point, body byte by byte, trailing bytes after the body}; delivered []*action compared with parseKeymap(\"f1:<body>\")")
     c.run_layer(b, LAYERS["wire"], "wire", deadline_s=c.pick(60, 300),
                 rule="real net.Pipe (all sequences <= 3, full close) and the real accept loop on 127.0.0.1 (one write + half-close, "
                      "abandoned connections); who may listen where; busy channel; thorough: silent client cut off by the 10 s read deadline")
